@@ -1,6 +1,7 @@
 """Hypothesis strategies: typed grammar-directed programs, inputs around literal boundaries,
 weights, identifiers.  Every random choice is a Hypothesis draw."""
 import keyword
+import copy
 import math
 
 from hypothesis import strategies as st
@@ -39,7 +40,10 @@ SIMPLE_SALTS = ["s1", "salt", "csdvs887", "", "v2-exp", "HAGFEUAKVDU", "user_exp
 # strings / salts that are perfectly legal DSL content but hostile to naive embedding in generated code: quotes, a trailing
 # backslash, braces (str.format / f-string syntax), percent, compatibility characters (NFKC folds them to ASCII syntax)
 TRICKY_STRS = ["C:\\", "a\\", "\\", "it's", 'say "hi"', "{x}", "{}", "{", "}", "{0}", "%s", "%(a)s", "100%", "tab\there", "\\n",
-               "\uff02q\uff02", "\uff07", "\ufb01", "x\u00b2", "\u2126", "a\rb", "#", "$a", "`a`", "a;b", "\\'", "{{}}", "é", "日本", "Washington, DC", "a,b", ", ", "x, y)", "(1, 2)", "1, 2", "[a]", "name='a'", "a\tb", " pad ", "2", "2.0", '"""', "'''", 'say """hi"""', '""', "a\\\\", "#!", "x.pyab"]
+               "\uff02q\uff02", "\uff07", "\ufb01", "x\u00b2", "\u2126", "a\rb", "#", "$a", "`a`", "a;b", "\\'", "{{}}", "é", "日本", "Washington, DC", "a,b", ", ", "x, y)", "(1, 2)", "1, 2", "[a]", "name='a'", "a\tb", " pad ", "2", "2.0", '"""', "'''", 'say """hi"""', '""', "a\\\\", "#!", "x.pyab",
+               # typographic look-alikes of the language's own punctuation (what a word processor or chat tool makes of ' " - ...)
+               "prix_d\u2019\u00e9t\u00e9", "\u2018q\u2019", "\u201cq\u201d", "\u201eq\u201c", "\u00abq\u00bb", "a\u2032b", "a\u2033", "\u00b4", "a\u2013b", "a\u2014b",
+               "\u22121", "1\u20442", "a\u2026", "a\u00a0b", "a\u202fb", "\u00ad", "x\u200by", "\ufe63", "\uff0d1", "\uff0c", "\uff1a", "\uff5b\uff5d", "\uff08\uff09"]
 SALT_TEMPLATES = ["{%s}", "{%s}:v1", "x{%s!r}", "%%(%s)s", "${%s}", "{%s:>4}", "{0}{%s}"]
 
 
@@ -243,7 +247,13 @@ def _body(env, labels, depth, max_branches, max_groups, pred_depth, ops, wkind, 
     nb = d(st.integers(1, max_branches))
     branches = []
     for _ in range(nb):
-        p = env.pred(pred_depth, ops)
+        seen = env.__dict__.setdefault("seen_preds", [])
+        if seen and d(st.integers(0, 5)) == 0:
+            # the same test written again elsewhere (in a nested chain and again in the outer one, twice in one chain ...)
+            p = copy.deepcopy(d(st.sampled_from(seen)))
+        else:
+            p = env.pred(pred_depth, ops)
+            seen.append(p)
         branches.append((p, _body(env, labels, depth - 1, max_branches, max_groups, pred_depth, ops, wkind)))
     else_ = None
     if d(st.integers(0, 9)) < 6:
